@@ -111,7 +111,13 @@ class Ctx:
 
 
 def assert_repo_under_test() -> None:
+    import logging
+
     import monkeytype
+
+    lg = logging.getLogger("monkeytype")  # contained failures are logged by MonkeyType; keep our output readable
+    lg.addHandler(logging.NullHandler())
+    lg.propagate = False
 
     f = Path(monkeytype.__file__).resolve()
     if REPO not in f.parents:
